@@ -5,7 +5,7 @@
    classic channels together with the futures ("waiters") those paths create and resolve.
    Executable Gallina only; no proofs here.
 
-   The code modelled is l2cap.py AFTER the repairs fixes/D09a..D09e and fixes/D07:
+   The code modelled is l2cap.py AFTER the repairs fixes/D09a..D09f and fixes/D07:
      D09a  on_channel_closed removes the channel from BOTH tables (was if/elif), and only
            the entries that are this very channel;
      D09b  le_coc_requests is keyed by connection handle and identifier, and is dropped on
@@ -15,6 +15,8 @@
      D09d  LeCreditBasedChannel.flush_output sets `drained`; abort() flushes;
      D09e  ClassicChannel.on_disconnection_request resolves disconnection_result
            (disconnection collision);
+     D09f  LE / enhanced client channels are filed in le_coc_channels by the response handler
+           (not when the opening coroutine resumes); in this model both are one step;
      D07   enhanced server channels are filed in le_coc_channels under the peer's CID.
 
    One manager is modelled; its peers are the environment: an EVENT is an API call made by
